@@ -108,7 +108,11 @@ ModeBytes(e) ==
   IF e.name \in Cursor /\ e.mods = 0 THEN
      (IF e.decckm THEN {<<27, 79, CursorFinal(e.name)>>} ELSE {<<27, 91, CursorFinal(e.name)>>})
   ELSE IF e.name \in Keypad \cup KeypadOps \cup {"KP_ENTER"} /\ e.mods = 0 THEN
-     (IF e.deckpam THEN {<<27, 79, KeypadFinal(e.name)>>, <<KeypadChar(e.name)>>} ELSE {<<KeypadChar(e.name)>>})
+     \* a key that carries no text was not typed with Num Lock on (Enter never carries any): in application keypad
+     \* mode - the encoding the child asked for - it is its SS3 code and nothing else
+     (IF e.deckpam THEN (IF e.text = <<>> THEN {<<27, 79, KeypadFinal(e.name)>>}
+                         ELSE {<<27, 79, KeypadFinal(e.name)>>, <<KeypadChar(e.name)>>})
+      ELSE {<<KeypadChar(e.name)>>})
   ELSE {}
 
 (* A keypad digit, operator or Enter written in a form its mode allows must also ARRIVE: parsed by *)
